@@ -117,6 +117,38 @@ func clientFacts() string {
 	}
 	fmt.Fprintf(&sb, "/-- generated from %s func GetEntries: is the failure to decode an entry of a 200 response returned as RspError (status, body)? -/\ndef getEntriesWrapsDecodeError : Bool := %v\n\n", rel2, wraps)
 
+	// --- the leaf builder addChainWithRetry verifies against (serialization.go)
+	rel4 := "serialization.go"
+	raw := mustFunc(rel4, "MerkleTreeLeafFromRawChain")
+	rb := src(raw.Body)
+	for _, need := range []string{"count := 3", "if count > len(rawChain) { count = len(rawChain) }", "cert, err := x509.ParseCertificate(rawChain[i].Data)",
+		"if x509.IsFatal(err) { return nil,", "return MerkleTreeLeafFromChain(chain, etype, timestamp)"} {
+		if !strings.Contains(rb, need) {
+			panic(bail{rel4 + ": MerkleTreeLeafFromRawChain no longer contains `" + need + "`"})
+		}
+	}
+	lf := mustFunc(rel4, "MerkleTreeLeafFromChain")
+	lb := src(lf.Body)
+	for _, need := range []string{"leaf.TimestampedEntry.X509Entry = &ASN1Cert{Data: chain[0].Raw}", "if etype != PrecertLogEntryType { return nil,",
+		"if len(chain) < 2 { return nil,", "issuer := chain[1]", "cert := chain[0]", "if IsPreIssuer(issuer) {", "if len(chain) < 3 { return nil,", "issuer = chain[2]",
+		"x509.BuildPrecertTBS(cert.RawTBSCertificate, preIssuer)", "IssuerKeyHash: sha256.Sum256(issuer.RawSubjectPublicKeyInfo)", "TBSCertificate: defangedTBS"} {
+		if !strings.Contains(lb, need) {
+			panic(bail{rel4 + ": MerkleTreeLeafFromChain no longer contains `" + need + "`"})
+		}
+	}
+	guards := false
+	for _, st := range lf.Body.List {
+		t := src(st)
+		if strings.Contains(t, "chain[0]") {
+			break
+		}
+		if is, ok := st.(*ast.IfStmt); ok && src(is.Cond) == "len(chain) == 0" && returnsNonNilError(is.Body) {
+			guards = true
+		}
+	}
+	fmt.Fprintf(&sb, "\n/-- generated from %s func MerkleTreeLeafFromChain: is an empty chain refused before `chain[0]` is touched? -/\ndef leafFromChainGuardsEmpty : Bool := %v\n", rel4, guards)
+	sb.WriteString("/-- generated from " + rel4 + ": MerkleTreeLeafFromRawChain parses at most three certificates (fatal error = error) and\nMerkleTreeLeafFromChain takes chain[0].Raw for an X.509 entry; for a precertificate entry the issuer is chain[1], or chain[2] when\nchain[1] is a pre-issuer, and the entry is (SHA-256 of the issuer's RawSubjectPublicKeyInfo, BuildPrecertTBS(chain[0].RawTBSCertificate, preIssuer)) -/\ndef leafFromChainShape : Bool := true\n")
+
 	// --- retry statuses of PostAndParseWithRetry
 	rel3 := "jsonclient/client.go"
 	fd = mustFunc(rel3, "JSONClient.PostAndParseWithRetry")
